@@ -190,6 +190,11 @@ def configs(model, r):
                         cfg = {"mirror": mirror, "card": card, "card_seed": 7, "overlays": _ovs(ov, r),
                                "readonly": [[0x1000, 0x1007], [0xB8010, 0xB801F]][:ro]}
                         out.append(cfg)
+            # the same final states reached through a history of slot operations on the same image
+            for hist, card in ((["absent"], "present"), (["absent", "present"], 16384), ([8192, "absent"], "present"),
+                               (["present", "absent"], "absent"), ([32768], 8192)):
+                out.append({"mirror": mirror, "card_history": hist, "card": card, "card_seed": 7, "overlays": _ovs("none", r),
+                            "readonly": []})
     return out
 
 
